@@ -172,7 +172,7 @@ _SIGT = "lifted_predicate.signature[lifted_predicate.signature.keys()[{i}]]"
 CONTRACTS["models.pddl_type:PDDLType.is_sub_type"] = dict(_C06_CONTRACTS["models.pddl_type:PDDLType.is_sub_type"], prop="C06")
 CONTRACTS[PP + "_validate_object_types"] = dict(
     prop="C05",
-    params={"self": ("ref", "ProblemParser"), "lifted_predicate": ("ref", "Predicate"), "predicate_signature_items": ("ref", "list_str")},
+    params={"self": ("ref", "ProblemParser"), "lifted_predicate": ("ref", "Predicate"), "predicate_signature_items": ("seq", "str")},
     returns="none", dict_values={"dict_str_ref": "PDDLType"},
     locals={},
     requires=["chain_wf()", "heap_closed(self)",
@@ -260,3 +260,35 @@ CONTRACTS[PP + "parse_objects"] = dict(
         f"forall_str(lambda s: implies(s in problem_objects, fresh(problem_objects[s]) and problem_objects[s].name == s and problem_objects[s].type == {_T}[ol_type(objects_ast, s, iterator)]))"],
         modifies=["dict_PDDLObject.keys[problem_objects]", "dict_PDDLObject.map[problem_objects]", "PDDLObject.name", "PDDLObject.type"])},
     spec_hooks=OL_HOOKS)
+
+# ---- deductive: parse_grounded_predicate — a fact is accepted exactly when its arity and the types of its arguments fit ----------------
+_VOT = CONTRACTS[PP + "_validate_object_types"]
+_ARGS = "grounded_predicate_ast[1:]"
+_ARG_I = "grounded_predicate_ast[i + 1]"
+_SIGK = "lifted_predicate.signature.keys()"
+_SIGT2 = "lifted_predicate.signature[lifted_predicate.signature.keys()[i]]"
+_ARITY_BAD = f"len(grounded_predicate_ast) - 1 != len({_SIGK})"
+_UNKNOWN = f"exists_int(lambda i: not known(self, {_ARG_I}), 0, len({_SIGK}))"
+_NONCONF = f"exists_int(lambda i: known(self, {_ARG_I}) and not conforms(self, {_ARG_I}, {_SIGT2}), 0, len({_SIGK}))"
+CONTRACTS[PP + "parse_grounded_predicate"] = dict(
+    prop="C05",
+    params={"self": ("ref", "ProblemParser"), "grounded_predicate_ast": ("seq", "str"), "lifted_predicate": ("ref", "Predicate")},
+    locals={"object_mapping": ("ref", "dict_str_str")},
+    returns=("ref", "GroundedPredicate"), dict_values={"dict_str_ref": "PDDLType"},
+    requires=[r for r in _VOT["requires"] if "predicate_signature_items" not in r] + ["len(grounded_predicate_ast) >= 1", "allocated(lifted_predicate)",
+                                                                                    # representation invariant of a signature: pairwise distinct parameter names
+                                                                                    f"forall_int(lambda i: forall_int(lambda j: implies(i != j, {_SIGK}[i] != {_SIGK}[j]), 0, len({_SIGK})), 0, len({_SIGK}))"],
+    ensures=[
+        "fresh(result)", "result.name == lifted_predicate.name", "result.is_positive", "result.signature == lifted_predicate.signature",
+        "fresh(result.object_mapping)",
+        # the i-th parameter of the declaration is mapped to the i-th argument of the fact
+        f"len(result.object_mapping.keys()) == len({_SIGK})",
+        f"forall_int(lambda i: result.object_mapping.keys()[i] == {_SIGK}[i] and result.object_mapping[{_SIGK}[i]] == {_ARG_I}, 0, len({_SIGK}))",
+        # a fact is only accepted with the declared arity and with declared, type-conforming arguments
+        f"len(grounded_predicate_ast) - 1 == len({_SIGK})",
+        f"forall_int(lambda i: known(self, {_ARG_I}) and conforms(self, {_ARG_I}, {_SIGT2}), 0, len({_SIGK}))"],
+    raises={"ValueError": _ARITY_BAD, "KeyError": _UNKNOWN, "AssertionError": _NONCONF},
+    must_raise=[_ARITY_BAD],
+    modifies=[],
+    calls={"self._validate_object_types": PP + "_validate_object_types"},
+    spec_hooks=_C05_HOOKS)
